@@ -118,30 +118,66 @@ theorem ccitt_validate_bridge (f : FB.FCCITT) (v : Int) :
   unfold FB.FCCITT.validate FB.maxDimV filter_FilterCCITTFax_validate_maxDim
   simp only []
   split <;> (try split) <;> (try split) <;> simp <;> omega
+/-- **bridge**: `predictParams` of the hand model = generated `predictParams` -/
+theorem predictParams_bridge (p colors bpc columns : Int) :
+    gp (FB.predictParams p colors bpc columns) = pdf_predictParams p colors bpc columns := by
+  rw [predictParams_eq]
+  rfl
+
+/-- **bridge** (all arguments, after library fix 879cf71): hand model `validateFlateLZW` (its own
+checks and, with a predictor, `predict.Params.Validate` on `predictParams(…)`) = generated function -/
 theorem validateFlateLZW_bridge (v : Nat) (p colors bpc columns : Int) :
     FB.validateFlateLZW v p colors bpc columns = (pdf_validateFlateLZW (v : Int) p colors bpc columns).isNone := by
-  unfold FB.validateFlateLZW pdf_validateFlateLZW pdf_checkVersionV FB.usingPredictor
-  rw [predictorValid_bridge]
-  unfold filter_FlatePredictorNone meta_V1_3 meta_V1_5
-  simp only [Id.run, pure]
-  cases hv : pdf_FlatePredictor_isValid p
-  · simp
-  · have c1 : ((1 : Nat) : Int) = 1 := rfl
-    simp only [c1, Bool.not_true, Bool.false_eq_true, if_false]
-    by_cases hu : p = 0 ∨ p = 1
-    · have e : (p != 0 && p != 1) = false := by rcases hu with h0 | h0 <;> subst h0 <;> decide
-      simp only [e]
-      by_cases c1 : colors = 0 <;> by_cases c2 : bpc = 0 <;> by_cases c3 : columns = 0 <;> simp [c1, c2, c3]
-    · have e : (p != 0 && p != 1) = true := by simp; omega
-      simp only [e, Bool.not_true, Bool.false_eq_true, false_and, if_false, if_true]
-      by_cases hc0 : colors = 0 <;> by_cases hb0 : bpc = 0 <;> by_cases hk0 : columns = 0 <;>
-        by_cases hv6 : (v : Int) ≥ 6 <;>
-        simp [hc0, hb0, hk0, hv6] <;>
-        (first | done |
-          (rw [Bool.eq_iff_iff]
-           simp only [Option.isNone_iff_eq_none, Bool.and_eq_true, Bool.or_eq_true, Bool.not_eq_true', decide_eq_true_eq,
-             decide_eq_false_iff_not]
-           split <;> (try split) <;> (try split) <;> (try simp) <;> omega))
+  unfold FB.validateFlateLZW
+  rw [validate_bridge, predictParams_bridge]
+  cases hE : pred_Params_Validate (pdf_predictParams p colors bpc columns) with
+  | some err =>
+    -- the predictor rejects: then a predictor is in use, and the generated function cannot return nil
+    have hu : ¬ (p = 0 ∨ p = 1) := fun hu => by
+      rw [validate_predictParams_noPredictor p colors bpc columns hu] at hE; cases hE
+    have hgen : (pdf_validateFlateLZW (v : Int) p colors bpc columns).isNone = false := by
+      rw [Bool.eq_false_iff]
+      intro hh
+      rw [Option.isNone_iff_eq_none] at hh
+      rw [C08tr.validate_ok_encode_ok _ _ _ _ _ hh] at hE; cases hE
+    have husing : FB.usingPredictor p = true := by
+      unfold FB.usingPredictor filter_FlatePredictorNone; simp; omega
+    rw [hgen, husing]
+    simp
+  | none =>
+    simp only [Option.isNone_none, Bool.or_true, Bool.and_true]
+    unfold FB.validateFlateLZWBase pdf_validateFlateLZW pdf_checkVersionV FB.usingPredictor
+    rw [predictorValid_bridge]
+    unfold filter_FlatePredictorNone meta_V1_3 meta_V1_5
+    simp only [Id.run, pure, hE]
+    cases hv : pdf_FlatePredictor_isValid p
+    · simp
+    · have c1 : ((1 : Nat) : Int) = 1 := rfl
+      simp only [c1, Bool.not_true, Bool.false_eq_true, if_false]
+      by_cases hu : p = 0 ∨ p = 1
+      · have e : (p != 0 && p != 1) = false := by rcases hu with h0 | h0 <;> subst h0 <;> decide
+        simp only [e]
+        by_cases c1 : colors = 0 <;> by_cases c2 : bpc = 0 <;> by_cases c3 : columns = 0 <;> simp [c1, c2, c3]
+      · have e : (p != 0 && p != 1) = true := by simp; omega
+        simp only [e, Bool.not_true, Bool.false_eq_true, false_and, if_false, if_true, Option.isSome_none]
+        by_cases hc0 : colors = 0 <;> by_cases hb0 : bpc = 0 <;> by_cases hk0 : columns = 0 <;>
+          by_cases hv6 : (v : Int) ≥ 6 <;>
+          simp [hc0, hb0, hk0, hv6] <;>
+          (first | done |
+            (rw [Bool.eq_iff_iff]
+             simp only [Option.isNone_iff_eq_none, Bool.and_eq_true, Bool.or_eq_true, Bool.not_eq_true', decide_eq_true_eq,
+               decide_eq_false_iff_not]
+             split <;> (try split) <;> (try split) <;> (try simp) <;> omega))
+
+/-- **validate_ok_encode_ok** transferred through the bridges: the hand-model statement
+(`C08fb.validate_ok_encode_ok`) and the statement on the generated code (`C08tr.validate_ok_encode_ok`)
+are the same fact -/
+theorem validate_ok_encode_ok_model (v : Nat) (p colors bpc columns : Int)
+    (h : FB.validateFlateLZW v p colors bpc columns = true) : (FB.predictParams p colors bpc columns).validate = true := by
+  rw [validateFlateLZW_bridge, Option.isNone_iff_eq_none] at h
+  have := C08tr.validate_ok_encode_ok (v : Int) p colors bpc columns h
+  rw [validate_bridge, predictParams_bridge, this]
+  rfl
 
 /-- `FilterFlate.validate` -/
 theorem flate_validate_bridge (f : FB.FFlate) (v : Nat) :
